@@ -119,10 +119,25 @@ SHORT = {
 }
 
 
+def _era(text: str, delta: int):
+    """The same period (or date) text `delta` years away; None when that day does not exist."""
+    import re
+
+    out = re.sub(r"(?<![0-9])(20[0-9]{2})(?![0-9])", lambda m: f"{int(m.group(1)) + delta:04d}", text)
+    try:
+        parse_period(out) if not re.fullmatch(r"\d{4}-\d{2}-\d{2}", out) else datetime.date.fromisoformat(out)
+    except ValueError:
+        return None
+    return out
+
+
 def generate(seed: int, tier: str) -> dict:
     st = Streams(seed)
     wr = st["world"]
     ents = gen_entities(wr, n_groups=1)
+    # era: the pools below lie around 2018; a quarter of the scenarios live around a century
+    # year instead (1900 and 2100 are not leap years, 2000 and 2400 are)
+    era = weighted(st["era"], [(0, 7.5), (82, 0.8), (80, 0.4), (-118, 0.8), (-18, 0.3), (382, 0.2)])
     variables = []
     for i in range(wr.randint(1, 4)):
         unit = weighted(wr, [("month", 6), ("day", 3), ("year", 2)])
@@ -142,6 +157,7 @@ def generate(seed: int, tier: str) -> dict:
             variables[-1]["end"] = pick(wr, ["2018-06-30", "2018-02-15", "2017-12-31", "2019-01-31",
                                                # the last day a variable exists may be the first day of a period
                                                "2018-01-01", "2018-02-01", "2018-07-01", "2018-02-28", "2019-01-01"])
+            variables[-1]["end"] = _era(variables[-1]["end"], era) or variables[-1]["end"]
     world = {"entities": ents, "enums": [], "parameters": {}, "variables": variables, "discipline": "acyclic"}
     situation = gen_situation(st["inputs"], world, max_persons=4)
     kr = st["knobs"]
@@ -165,15 +181,21 @@ def generate(seed: int, tier: str) -> dict:
         r = orr.random()
         u = v["unit"]
         if r < 0.4:
-            per = pick(orr, LONG[u])
+            per = _era(pick(orr, LONG[u]), era)
         elif r < 0.75:
-            per = pick(orr, SHORT[u])
+            per = _era(pick(orr, SHORT[u]), era)
         elif r < 0.88:
-            ops.append({"actor": "R", "do": ["calculate_add", v["name"], pick(orr, LONG[u])]})
+            per = _era(pick(orr, LONG[u]), era)
+            if per:
+                ops.append({"actor": "R", "do": ["calculate_add", v["name"], per]})
             continue
         else:
-            ops.append({"actor": "R", "do": ["get_array", v["name"], pick(orr, SHORT[u])]})
+            per = _era(pick(orr, SHORT[u]), era)
+            if per:
+                ops.append({"actor": "R", "do": ["get_array", v["name"], per]})
             continue
+        if per is None:
+            continue  # (29 February of a year that has none)
         n_sub = len(sub_periods(per, u))
         k = orr.randint(1, 3)
         if v["type"] == "int":
@@ -202,6 +224,7 @@ def generate(seed: int, tier: str) -> dict:
         "knobs": knobs,
         "inputs": [],
         "env": env,
+        "era": era,
         "ops": ops,
     }
 
